@@ -57,7 +57,7 @@ def scenario(draw) -> Dict[str, Any]:
                 new = {'props': '0578793d7a7a'}
             pre_updates.append({'svc': k, 'set': new})
     items: List[Tuple[int, int, Dict[str, Any]]] = []
-    how = draw(st.sampled_from(['unregister', 'unregister', 'unregister2', 'close']))
+    how = draw(st.sampled_from(['unregister', 'unregister', 'unregister2', 'close', 'unregister-then-close']))
     if how == 'close':
         items.append((0, 1, {'kind': 'close'}))
     else:
@@ -69,6 +69,11 @@ def scenario(draw) -> Dict[str, Any]:
             services[k]['late'] = True
             pre_updates = [u for u in pre_updates if u['svc'] != k]
             items.append((-draw(st.sampled_from([530, 560, 700, 760, 900, 990])), 0, {'kind': 'register', 'svc': k}))
+        if how == 'unregister-then-close':
+            # the application unregisters one service without waiting for the goodbyes and closes the instance right away or
+            # shortly after: the service still has to be withdrawn three times before the sockets close
+            items[-1][2]['await'] = False
+            items.append((draw(st.sampled_from([0, 0, 1, 100, 124, 126, 200, 249, 251, 400])), 2, {'kind': 'close'}))
         if how == 'unregister2' and n > 1:
             items.append((draw(st.sampled_from([0, 1, 100, 125, 300])), 2, {'kind': 'unregister', 'svc': (k + 1) % n, 'await': True}))
     n_q = draw(st.integers(1, 5))
